@@ -14,10 +14,12 @@ use std::sync::{Arc, Mutex};
 
 #[derive(Clone, Copy, PartialEq, Debug)]
 pub enum Kind { Map, Slot, RefFull, RefNonDisc, RefForced, MapArcMutex, MapArcRwLock, MapMutex, MapRwLock, SlotArcMutex, SlotArcRwLock, SlotMutex, SlotRwLock, RefArcMutex, RefArcRwLock, RefMutex, RefRwLock,
-    RefNonDiscArcMutex, RefNonDiscArcRwLock, RefNonDiscMutex, RefNonDiscRwLock, RefForcedArcMutex, RefForcedRwLock }
+    RefNonDiscArcMutex, RefNonDiscArcRwLock, RefNonDiscMutex, RefNonDiscRwLock, RefForcedArcMutex, RefForcedRwLock,
+    /// the contract store answering a miss with an empty list
+    RefFullEmptyOk }
 impl Kind {
     /// the name the model knows the store by (lock wrappers behave like the store they wrap)
-    pub fn name(self) -> &'static str { match self { Kind::Map | Kind::MapArcMutex | Kind::MapArcRwLock | Kind::MapMutex | Kind::MapRwLock => "map", Kind::Slot | Kind::SlotArcMutex | Kind::SlotArcRwLock | Kind::SlotMutex | Kind::SlotRwLock => "slot", Kind::RefFull | Kind::RefArcMutex | Kind::RefArcRwLock | Kind::RefMutex | Kind::RefRwLock => "ref:full", Kind::RefNonDisc | Kind::RefNonDiscArcMutex | Kind::RefNonDiscArcRwLock | Kind::RefNonDiscMutex | Kind::RefNonDiscRwLock => "ref:nondisc",
+    pub fn name(self) -> &'static str { match self { Kind::Map | Kind::MapArcMutex | Kind::MapArcRwLock | Kind::MapMutex | Kind::MapRwLock => "map", Kind::Slot | Kind::SlotArcMutex | Kind::SlotArcRwLock | Kind::SlotMutex | Kind::SlotRwLock => "slot", Kind::RefFull | Kind::RefArcMutex | Kind::RefArcRwLock | Kind::RefMutex | Kind::RefRwLock | Kind::RefFullEmptyOk => "ref:full", Kind::RefNonDisc | Kind::RefNonDiscArcMutex | Kind::RefNonDiscArcRwLock | Kind::RefNonDiscMutex | Kind::RefNonDiscRwLock => "ref:nondisc",
         Kind::RefForced | Kind::RefForcedArcMutex | Kind::RefForcedRwLock => "ref:forced" } }
 }
 #[derive(Clone, Copy, PartialEq, Debug)]
@@ -411,6 +413,7 @@ pub fn run_case_tw(ctx: &mut Ctx, prop: &str, w: &World, steps: &[Step], twin: &
         Kind::RefNonDiscRwLock => run_generic(ctx, prop, w, tokio::sync::RwLock::new(RefStore::new(d_non)), steps, &tw),
         Kind::RefForcedArcMutex => run_generic(ctx, prop, w, Arc::new(tokio::sync::Mutex::new(RefStore::new(d_forced))), steps, &tw),
         Kind::RefForcedRwLock => run_generic(ctx, prop, w, tokio::sync::RwLock::new(RefStore::new(d_forced)), steps, &tw),
+        Kind::RefFullEmptyOk => run_generic(ctx, prop, w, RefStore::new_empty_ok(d_full), steps, &tw),
     }
 }
 
